@@ -12,7 +12,7 @@
 
 This file is also the child-process driver:  python c14.py --drive c|py   (sequences on stdin, JSON out).
 """
-import ctypes, json, math, os, subprocess, sys
+import ctypes, json, math, os, re, subprocess, sys
 
 NAMES = ["star", "planet1", "a", "", "Jupiter", "x y", "abcd", "abcde", "zz"]
 INTS = [0, 0, 0, 1, 2, 3, 7, 4294967295]
